@@ -56,6 +56,10 @@ func c12Store(M, L int, kind string, mi, li int) (*metrics.Store, []*metrics.Met
 			typ = metrics.Float
 		}
 		m := metrics.NewMetric(name, "prog", metrics.Counter, typ, keys...)
+		if kind == "limit" && i == mi {
+			// more label sets than the declared limit: the state between two GC passes
+			m.Limit = 1
+		}
 		for j := 0; j < L; j++ {
 			lv := fmt.Sprintf("v%d", j)
 			if kind == "utf8" && i == mi && j == li {
@@ -417,6 +421,10 @@ func c12Faults(exp string, M, L int) [][3]string {
 					add("utf8+w", mi, li)
 				}
 			}
+		}
+		add("limit", mi, 0)
+		if L > 0 {
+			add("limit+w", mi, 0)
 		}
 		if exp == "prom" {
 			add("name", mi, 0)
